@@ -202,6 +202,11 @@ def gen_call(rng, plots=True):
         return {'fn': 'to_rfi', 'obj': S, 'ch': gen_ch(rng, forms=('none', 'name', 'list', 'list1'))}
     if fam == 'transform':
         return {'fn': 'transform', 'obj': rng.choice([S, 'arr']), 'ch': gen_ch(rng, forms=('none', 'int', 'list'))}
+    if fam == 'to_mef' and rng.chance(0.35):
+        # channels and curve channels as caller-owned lists of positions, negative ones included
+        pos = rng.sample([-1, -2, -3, 0, 1, 2, 3], rng.randint(1, 3))
+        return {'fn': 'to_mef', 'obj': S, 'sc_channels': pos, 'ch': rng.choice([None, [pos[0]], list(reversed(pos))]),
+                'params': [[1.0 + 0.05 * i, 1.0 + i] for i in range(len(pos))]}
     if fam == 'to_mef':
         chs = rng.sample(CH[:4], rng.randint(1, 3))
         return {'fn': 'to_mef', 'obj': S, 'sc_channels': chs, 'ch': rng.choice([None, chs[0], list(reversed(chs))]),
